@@ -317,6 +317,23 @@ func (b *Built) DoTarget(verb, path, rawTarget, rawQuery string) Outcome {
 	return o
 }
 
+// DoBody serves the request with a JSON body (only status and panic are of interest to its callers).
+func (b *Built) DoBody(verb, path, body string) Outcome {
+	b.Rec.Take()
+	hdr := http.Header{}
+	hdr.Set("Content-Type", "application/json")
+	res := drive.Serve(b.Mux, drive.Request(verb, path, "", hdr, strings.NewReader(body), int64(len(body))))
+	calls := b.Rec.Take()
+	o := Outcome{Status: res.Rec.Code, Body: res.Rec.Body.String()}
+	if res.Panic != nil {
+		o.Panic = res.PanicSig() + ": " + fmt.Sprint(res.Panic)
+	}
+	if len(calls) > 0 {
+		o.Method, o.Msg = calls[0].Method, calls[0].Msg
+	}
+	return o
+}
+
 // ReqDesc returns the request message descriptor.
 func ReqDesc(w *dyn.World) protoreflect.MessageDescriptor { return w.MsgDesc("rt.Req") }
 
